@@ -157,14 +157,76 @@ class ProxyFloat(metaclass=_FloatMeta):
 
 
 PROXY_BUILTINS = {"int": ProxyInt, "float": ProxyFloat}
+
+import math as _math
+
+
+class SymMath:
+    """`math` as seen by the code under test: the real module for native numbers, exact-real models of the
+    comparison / rounding helpers for proxies (transcendental functions of a proxy are out of reach)"""
+
+    def __getattr__(self, name):
+        f = getattr(_math, name)
+        if not callable(f):
+            return f
+
+        def wrapper(*a, **k):
+            if any(is_sym(x) for x in a) or any(is_sym(x) for x in k.values()):
+                raise core.Inconclusive("math.%s of a symbolic value is not modelled" % name)
+            return f(*a, **k)
+        return wrapper
+
+    def isclose(self, a, b, *, rel_tol=1e-09, abs_tol=0.0):
+        if not (is_sym(a) or is_sym(b)):
+            return _math.isclose(a, b, rel_tol=rel_tol, abs_tol=abs_tol)
+        ta, tb = to_real(a), to_real(b)
+        d = zabs(ta - tb)
+        big = zmax([zabs(ta), zabs(tb)])
+        return SymBool(z3.Or(ta == tb, d <= zmax([core.rat(rel_tol) * big, core.rat(abs_tol)])))
+
+    def fabs(self, x):
+        return abs(x) if is_sym(x) else _math.fabs(x)
+
+    def floor(self, x):
+        if type(x) is SymReal:
+            sp = core.Space.cur
+            k = z3.Int(sp.fresh("floor"))
+            sp.add(z3.ToReal(k) <= x.t, x.t < z3.ToReal(k) + 1)
+            return SymInt(k)
+        return x if type(x) is SymInt else _math.floor(x)
+
+    def ceil(self, x):
+        if type(x) is SymReal:
+            sp = core.Space.cur
+            k = z3.Int(sp.fresh("ceil"))
+            sp.add(z3.ToReal(k) - 1 < x.t, x.t <= z3.ToReal(k))
+            return SymInt(k)
+        return x if type(x) is SymInt else _math.ceil(x)
+
+    def trunc(self, x):
+        return sym_int(x) if is_sym(x) else _math.trunc(x)
+
+    def isnan(self, x):
+        return False if is_sym(x) else _math.isnan(x)
+
+    def isinf(self, x):
+        return False if is_sym(x) else _math.isinf(x)
+
+    def isfinite(self, x):
+        return True if is_sym(x) else _math.isfinite(x)
+
+
+def with_math(mod):
+    mod.math = SymMath()
+    return mod
 _lemma = {}
 
 
 def tadm():
     """tad.py as used by the lemma harnesses: unmodified source, proxy-aware int()/float() as module globals"""
     if "tad" not in _lemma:
-        _lemma["tad"] = repo.load("tad", overrides=dict(PROXY_BUILTINS), imports={"reverse_dfs": repo.std().reverse_dfs},
-                                  alias="tad_lemma")
+        _lemma["tad"] = with_math(repo.load("tad", overrides=dict(PROXY_BUILTINS), imports={"reverse_dfs": repo.std().reverse_dfs},
+                                            alias="tad_lemma"))
     return _lemma["tad"]
 
 
@@ -211,6 +273,6 @@ def tad_merged():
     max(...) inside the reward loop then merges instead of forking)"""
     if "tad" not in _merged:
         std = repo.std()
-        _merged["tad"] = repo.load("tad", overrides=dict(PROXY_BUILTINS, max=sym_max, min=sym_min),
-                                   imports={"reverse_dfs": std.reverse_dfs}, alias="tad_merged")
+        _merged["tad"] = with_math(repo.load("tad", overrides=dict(PROXY_BUILTINS, max=sym_max, min=sym_min),
+                                             imports={"reverse_dfs": std.reverse_dfs}, alias="tad_merged"))
     return _merged["tad"]
